@@ -52,6 +52,30 @@ def pvt_table() -> pd.DataFrame:
     return pd.read_csv(env.REPO / "tests/data/pvt_gas_HAYNESVILLE SHALE_20.csv")
 
 
+_SECOND = {}
+
+
+def second_pvt_table() -> pd.DataFrame:
+    """Another gas (library-built, 0.8 gravity, 250 F, 10..13990 psia): wells with different fluids in one process."""
+    if "t" not in _SECOND:
+        from bluebonnet.fluids import build_pvt_gas  # noqa: PLC0415
+
+        _SECOND["t"] = build_pvt_gas({"N2": 0.0, "H2S": 0.0, "CO2": 0.0, "Gas Specific Gravity": 0.8,
+                                      "Reservoir Temperature (deg F)": 250.0}, "dry gas")
+    return _SECOND["t"]
+
+
+def relabel(df: pd.DataFrame, how: int) -> pd.DataFrame:
+    """Row labels are not row positions: 0 default RangeIndex, 1 labels n-1..0 (a newest-first table after sort_values),
+    2 labels 500.. (a slice of a multi-well table)."""
+    df = df.copy()
+    if how % 3 == 1:
+        df.index = np.arange(len(df))[::-1]
+    elif how % 3 == 2:
+        df.index = np.arange(500, 500 + len(df))
+    return df
+
+
 def call_fit(prod, pvt, *, spy: bool, **kw):
     """fit_production_pressure with lmfit.Minimizer observed from the harness side.
     spy=False: recorder only (the minimisation is not run).  Returns (outcome, captured, result)."""
@@ -105,7 +129,7 @@ def check_case(cs: dict, const: dict, pvt) -> list[tuple[str, str]]:
     from lmfit import Parameters  # noqa: PLC0415
 
     out = cs["out"]
-    prod = table_of(cs["pattern"], cs["k"])
+    prod = relabel(table_of(cs["pattern"], cs["k"]), len(cs["pattern"]) + cs["k"] + int(cs["filter"]))
     kw = dict(pressure_initial=3.5 * P_UNIT, filter_window_size=None if cs["window"] == 0 else cs["window"],
               pressure_imax=const["pimax"] * P_UNIT, inplace_max=const["inplace_max"] * G_UNIT,
               filter_zero_prod_days=cs["filter"], n_iter=1)
@@ -230,14 +254,21 @@ def objective_events(ref: dict, seed, count: int) -> list[dict]:
     from lmfit import Parameters  # noqa: PLC0415
 
     rng = np.random.default_rng(seed)
-    pvt = pvt_table()
+    tables = [pvt_table(), second_pvt_table()]
     evs = []
+    p_prev = None
     for i in range(count):
+        # consecutive evaluations alternate between two fluids at a bit-identical initial pressure (two wells of one field)
+        pvt = tables[i % 2]
         n = int(rng.integers(8, 60))
         days = np.arange(n, dtype=float) if rng.random() < 0.6 else np.concatenate([[0.0], np.cumsum(rng.uniform(0.3, 3.0, n - 1))])
         tau_g, m_g, p_g = rng.uniform(20.0, 400.0), 10 ** rng.uniform(2, 5), rng.uniform(4000.0, 12000.0)
+        if i % 2 == 1 and p_prev is not None:
+            p_g = p_prev
+        p_prev = p_g
         pf = schedule(rng, n, p_g)
-        raw = {"n": n, "tau": tau_g, "M": m_g, "p_initial": p_g, "pf_first_last": [float(pf[0]), float(pf[-1])],
+        raw = {"n": n, "tau": tau_g, "M": m_g, "p_initial": p_g, "pvt": ["haynesville csv", "built 0.8/250F"][i % 2],
+               "pf_first_last": [float(pf[0]), float(pf[-1])],
                "integer_days": bool(np.all(days == np.arange(n)))}
 
         def pars(tau, m, p):
@@ -261,7 +292,7 @@ def objective_events(ref: dict, seed, count: int) -> list[dict]:
                     ev["agree_e15"] = arr_e15(obj, m_g * rf_g - production, m_g)
                 else:  # anywhere else: other parameters, and (mode 2) production that no model generated
                     tau, m = tau_g * 10 ** rng.uniform(-0.7, 0.7), m_g * 10 ** rng.uniform(-1, 1)
-                    p = rng.uniform(float(pf.max()) + 1.0, 13000.0)
+                    p = p_g if rng.random() < 0.5 else rng.uniform(float(pf.max()) + 1.0, 13000.0)
                     if mode == 2:
                         production = np.cumsum(rng.uniform(0.0, 2.0, n) * m_g / n)
                     obj = np.asarray(_obj_function(pars(tau, m, p), days, production, pvt, pf), dtype=float)
@@ -302,11 +333,20 @@ def fit_events(ref: dict, seed, count: int) -> list[dict]:
         idx = rng.permutation(np.arange(1, n0 - 1))
         gas[idx[:nz]] = 0.0
         pres[idx[nz:nz + nm]] = np.nan
-        prod = pd.DataFrame({"Days": days * 1.0 + 100.0, "Gas": gas, "Pressure": pres, "Extra": 1.0})
+        prod = relabel(pd.DataFrame({"Days": days * 1.0 + 100.0, "Gas": gas, "Pressure": pres, "Extra": 1.0}),
+                       i + (int(seed[2]) // 3 if isinstance(seed, (list, tuple)) and len(seed) > 2 else 0))
         window = [None, 1, 3][int(rng.integers(3))]
         n_iter = [1, 4, 20][i % 3] if (i // 3) % 2 == 0 else [20, 1, 4][i % 3]
         pimax = float(rng.choice([12000.0, 13000.0, 13900.0]))
         inplace = float(rng.choice([1e5, 3e5]))
+        gi = i + (int(seed[2]) if isinstance(seed, (list, tuple)) and len(seed) > 2 else 0)   # index across batches
+        if gi % 4 == 3:
+            # a declared resource-in-place limit close to the data (between the last cumulative value and twice it), the data
+            # generated with a larger M, and a budget that lets the simplex wander: the limit must still hold
+            keep = (gas > 0) & ~np.isnan(pres) if filt else np.ones(n0, dtype=bool)
+            clast = float(np.cumsum(gas[keep])[-1])
+            inplace = clast * float(rng.uniform(1.05, 1.6))
+            n_iter = 40
         guess = rng.uniform(float(np.nanmax(pres)) * 0.5, pimax * 1.05)  # the guess may lie outside the limits
         kw = dict(pressure_initial=guess, filter_window_size=window, pressure_imax=pimax, inplace_max=inplace,
                   filter_zero_prod_days=filt, n_iter=n_iter)
@@ -411,7 +451,7 @@ def trace_validation(ctx: core.Ctx, ref: dict, n_obj: int, n_fit: int, n_pipe: i
                           replay={"stage": "trace", "what": t[0], "seed": t[2], "count": t[3], "index": v["seq"], "ref": ref})
     fits = [e for (_t, e) in src.values() if e["ev"] == "FitResult"]
     objs = [e for (_t, e) in src.values() if e["ev"] == "Objective"]
-    ctx.extra["fits"] = {"total": len(fits), "by_n_iter": {str(k): sum(e["n_iter"] == k for e in fits) for k in (1, 4, 20)},
+    ctx.extra["fits"] = {"total": len(fits), "by_n_iter": {str(k): sum(e["n_iter"] == k for e in fits) for k in (1, 4, 20, 40)},
                          "objective_events": len(objs), "at_generating_parameters": sum(e["atgen"] for e in objs),
                          "worst_objective_agreement_e15": max([e["agree_e15"] for e in objs], default=0),
                          "worst_zero_at_generating_e15": max([e["zero_e15"] for e in objs], default=0)}
